@@ -740,6 +740,13 @@ pub fn universe_depth1() -> Vec<Ty> {
         }
     }
     out.insert(Ty::Struct(BTreeMap::new()));
+    // field names are whole, case-sensitive identifiers: structs that differ only in the spelling of a name
+    for names in [vec!["A"], vec!["a", "A"], vec!["ab"], vec!["aB"], vec!["a_"], vec!["a", "a_"], vec!["int"], vec!["A", "b"]] {
+        for t in [Ty::Int, Ty::Any] {
+            let fs: BTreeMap<String, Ty> = names.iter().map(|n| (n.to_string(), t.clone())).collect();
+            out.insert(Ty::Struct(fs));
+        }
+    }
     for a in &base[..5] {
         for b in &base[..5] {
             for c in &base[..5] {
